@@ -70,15 +70,20 @@ def _ops(self, hist):
 def _build_case(self, ops, out):
     """build a sweep case through the machine; returns the state or None (counted)"""
     st = machine.State()
+    done = 0
     try:
         for op in ops:
             machine.apply(st, op, self.values)
             out.transitions += 1
+            done += 1
     except machine.NotEnabled as e:
         out.filters["case:" + e.args[0]] += 1
         return None
     except machine.NonConformance as e:
         out.filters["case:builder-nonconformance(C03/C18)"] += 1
+        if done == len(ops) - 1 and getattr(self, "judges_nonconformant_calls", False):
+            # (replay of a case that was judged on a non-conformant last call)
+            self.nonconformance(st, tuple(ops), ops[done], e, out)
         return None
     except Exception as e:
         out.filters["case:op-raised:%s" % type(e).__name__] += 1
